@@ -18,6 +18,15 @@
 (*                                              CALL's value moves) or     *)
 (*                                              fails (nothing moves, the  *)
 (*                                              forwarded gas is burnt)    *)
+(*    RECREATE(ref, val)                        CREATE2 with the salt and   *)
+(*                                              init code of the CREATE2 at*)
+(*                                              token ref: the address is  *)
+(*                                              taken (collision)          *)
+(*    DEEP                                      calls the self-recursive   *)
+(*                                              contract R: the call at    *)
+(*                                              depth 1025 is refused, its *)
+(*                                              caller records that in     *)
+(*                                              R.1 and all frames return  *)
 (*    BALOP(of, ar)                             reads a balance (SELFBALANCE*)
 (*                                              / BALANCE) and computes    *)
 (*                                              with it: changes nothing   *)
@@ -76,18 +85,20 @@ Created == { KName(i) : i \in 1..MaxTokens }
 \* precompiled contracts 0x01..0x08 (ecrecover, sha256, ripemd160, identity, modexp, bn256 add / mul / pairing): accounts
 \* that do not exist initially; only the rich alphabet and hand-written programs call them
 Pre     == IF Alphabet = "rich" THEN {"P1", "P2", "P3", "P4", "P5", "P6", "P7", "P8"} ELSE {}
-Names   == {Origin} \cup Contracts \cup Plain \cup Created \cup Pre
+Rec     == IF Alphabet = "rich" THEN {"R"} ELSE {}        \* the self-recursive helper contract of DEEP
+Names   == {Origin} \cup Contracts \cup Plain \cup Created \cup Pre \cup Rec
 Slots   == {1, 2}
 Min(a, b) == IF a < b THEN a ELSE b
 
 InitBal(a) == IF a = Origin THEN 5 ELSE IF a \in Contracts THEN 2 ELSE IF a = "E" THEN 1 ELSE 0
-InitExists(a) == a = Origin \/ a \in Contracts \/ a = "E"
+InitExists(a) == a = Origin \/ a \in Contracts \/ a = "E" \/ a = "R"
 \* contracts start with storage from earlier transactions: A.1 = 3, B.2 = 3, C.1 = C.2 = 3 (the driver commits it, or has
 \* part of it written by an earlier, finalised transaction of the same block)
 InitSto(a, s) == IF (a = "A" /\ s = 1) \/ (a = "B" /\ s = 2) \/ a = "C" THEN 3 ELSE 0
 World0 == [bal   |-> [a \in Names |-> InitBal(a)],
            sto   |-> [a \in Names |-> [s \in Slots |-> IF a \in Contracts THEN InitSto(a, s) ELSE 0]],
-           code  |-> [a \in Names |-> IF a \in Contracts THEN "own" ELSE ""],
+           code  |-> [a \in Names |-> IF a \in Contracts THEN "own" ELSE IF a = "R" THEN "rec" ELSE ""],
+           by    |-> [a \in Names |-> ""],     \* who created the account (CREATE2 addresses depend on the creator)
            logs  |-> <<>>,
            made  |-> {},          \* accounts created in this transaction
            dead  |-> {},          \* accounts that self-destructed in this transaction
@@ -116,6 +127,7 @@ SimpleToks ==
    \cup { [t |-> "LOG"] }
    \cup { [t |-> "XFER", to |-> a, val |-> v] : a \in Plain, v \in (IF Alphabet = "rich" THEN {0, 1, 2} ELSE {1}) }
    \cup (IF Alphabet = "tiny" THEN {} ELSE { [t |-> "BALOP", of |-> a, ar |-> r] : a \in {"SELF", "A"}, r \in {"ADD", "MUL", "POP"} })
+   \cup (IF Alphabet = "rich" THEN { [t |-> "DEEP"] } ELSE {})
    \cup { p \in PreToks : PreTokOK(p) /\ p.to \in {"P1", "P4", "P6", "P8"} /\ p.gas = "all" }     \* a representative subset
 CallKinds == IF Alphabet = "tiny" THEN {"CALL", "STATICCALL", "DELEGATECALL"}
              ELSE {"CALL", "CALLCODE", "DELEGATECALL", "STATICCALL"}
@@ -127,7 +139,10 @@ CallOK(c) == /\ (c.kind \in {"DELEGATECALL", "STATICCALL"} => c.val = 0)
              /\ (c.gas = "one" => c.val = 0 /\ Alphabet # "tiny")
 CreateToks == IF Alphabet = "tiny" THEN { [t |-> "CREATE", kind |-> "CREATE", val |-> 1] }
               ELSE { [t |-> "CREATE", kind |-> k, val |-> v] : k \in {"CREATE", "CREATE2"}, v \in {0, 1} }
+\* RETMAX / RETOVER: RETURN of exactly the maximum code size (24576 bytes) / of more: as the end of init code the first
+\* is accepted, the second makes the creation fail; as the end of a message call both are plain returns
 EndHows == IF Alphabet = "tiny" THEN {"STOP", "REVERT", "INVALID"}
+           ELSE IF Alphabet = "rich" THEN {"STOP", "RETURN", "REVERT", "INVALID", "OOG", "RETMAX", "RETOVER"}
            ELSE {"STOP", "RETURN", "REVERT", "INVALID", "OOG"}
 Bens == IF Alphabet = "tiny" THEN {"SELF", "E"} ELSE {"SELF"} \cup Plain \cup Contracts
 EndToks == { [t |-> "END", how |-> h] : h \in EndHows } \cup { [t |-> "END", how |-> "SELFDESTRUCT", ben |-> b] : b \in Bens }
@@ -228,6 +243,16 @@ Exec ==
                   ELSE IF tk.val > world.bal[f.ctx] THEN Xfer("nofunds", world)   \* refused, the frame goes on
                   ELSE Xfer("ok", Pay(world, f.ctx, tk.to, tk.val))
              [] tk.t = "BALOP" -> Step(world)
+             [] tk.t = "DEEP" ->
+                  \* beneath a STATICCALL the deepest frame's SSTORE is refused, that frame fails, and so does every frame
+                  \* above it in R: the call into R fails and burns what was forwarded
+                  IF f.static THEN PreFail(TRUE) ELSE Xfer("ok", [world EXCEPT !.sto["R"][1] = 1])
+             [] tk.t = "RECREATE" ->
+                  IF f.static THEN Fail
+                  ELSE IF tk.val > world.bal[f.ctx] THEN Xfer("nofunds", world)
+                  ELSE IF KName(tk.ref) \in world.made /\ world.by[KName(tk.ref)] = f.ctx
+                       THEN PreFail(TRUE)          \* the address is taken: nothing happens, the forwarded gas is gone
+                       ELSE mode' = "skip" /\ UNCHANGED <<pc, world, fs, out>>   \* the init code would run again: not modelled
              [] tk.t = "PRE" ->
                   IF f.static /\ tk.kind = "CALL" /\ tk.val > 0 THEN Fail
                   ELSE IF tk.kind \in {"CALL", "CALLCODE"} /\ tk.val > world.bal[f.ctx] THEN Xfer("nofunds", world)
@@ -248,11 +273,13 @@ Exec ==
                   ELSE IF tk.val > world.bal[f.ctx] THEN NotEntered("nofunds")
                   ELSE Enter([site |-> pc, ctx |-> KName(pc), static |-> FALSE, snap |-> world, kind |-> tk.kind,
                               lvl |-> f.lvl, doomed |-> FALSE],
-                             Pay([world EXCEPT !.made = @ \cup {KName(pc)}], f.ctx, KName(pc), tk.val))
+                             Pay([world EXCEPT !.made = @ \cup {KName(pc)}, !.by[KName(pc)] = f.ctx], f.ctx, KName(pc), tk.val))
              [] tk.t = "END" ->
                   LET init == f.kind \in {"CREATE", "CREATE2"} IN
                   CASE tk.how = "STOP"   -> Exit("ok", world, pc + 1)
                     [] tk.how = "RETURN" -> Exit("ok", IF init THEN [world EXCEPT !.code[f.ctx] = "rt"] ELSE world, pc + 1)
+                    [] tk.how = "RETMAX" -> Exit("ok", IF init THEN [world EXCEPT !.code[f.ctx] = "big"] ELSE world, pc + 1)
+                    [] tk.how = "RETOVER" -> IF init THEN Exit("fail", f.snap, pc + 1) ELSE Exit("ok", world, pc + 1)
                     [] tk.how = "REVERT" -> Exit("revert", f.snap, pc + 1)
                     [] tk.how \in {"INVALID", "OOG"} -> Exit("fail", f.snap, pc + 1)
                     [] tk.how = "SELFDESTRUCT" ->
@@ -279,6 +306,7 @@ GasAmple == \A i \in DOMAIN fs : fs[i].lvl <= MaxLvl
 (* self-destructed accounts are deleted, with whatever they still held)    *)
 Used == {Origin} \cup Contracts \cup Plain \cup { KName(i) : i \in { n \in DOMAIN prog : prog[n].t = "CREATE" } }
         \cup { prog[n].to : n \in { k \in DOMAIN prog : prog[k].t = "PRE" } }
+        \cup (IF \E n \in DOMAIN prog : prog[n].t = "DEEP" THEN {"R"} ELSE {})
 Gone(a) == a \in world.dead
 Final == [bal  |-> [a \in Used |-> IF Gone(a) THEN 0 ELSE world.bal[a]],
           sto  |-> [a \in Used |-> IF Gone(a) THEN <<0, 0>> ELSE <<world.sto[a][1], world.sto[a][2]>>],
@@ -305,7 +333,7 @@ FailedFrameLeavesNoTrace ==
           => world' = (IF Len(fs') < Len(fs) THEN Top.snap ELSE world) ]_vars
 \* logs and created accounts of a failed frame disappear with it; those of finished successful frames stay
 LogsFromLiveFrames == \A i \in DOMAIN world.logs : world.logs[i][2] < pc
-TypeOK == /\ mode \in {"build", "run", "done"}
+TypeOK == /\ mode \in {"build", "run", "done", "skip"}
           /\ (mode # "build" => pc \in 1..(Len(prog) + 1) /\ Len(fs) >= 1)
           /\ world.dead \subseteq Names /\ world.made \subseteq Created
 =============================================================================
